@@ -5,6 +5,8 @@
                  otherwise the tombstone's ttl in ms, during which the rebuild is blocked)] ; backend [ptr; incl] ; ttl ; mode (0 store | 1 session) ;
                  clients [x ...] ; ops [[code; a; b; c; d] ...] ; obs [ per op: [ per node: [ per client: [kind; n; c] ] ] ] ]
    kind: 0 = not found / expired, 1 = found (n, c), 2 = any other error.  Tick durations are in ms.
+   Session codes 8 / 9: a forwarding path (SendCommandToClient / SendHTTPProxyRequest) that only READS the location: no event
+   (8), resp. exactly the handshake that completes inside its lookup (9 = code 1's AuthOK; harness hook store).
    Session code 7 (StaleSweep n c: the node's periodic sweep finds control connection c silent beyond the heartbeat
    timeout) is not an event of its own: ClientRegistry.CleanupStale removes c from the registry and calls
    CloseConnection, i.e. it IS the event Close n c when c is a registered control connection, and nothing otherwise. *)
@@ -19,7 +21,8 @@ Definition dec_event (v : tval) : event :=
   let a := vn (vnth 1 v) in let b := vn (vnth 2 v) in let c := vn (vnth 3 v) in
   match vn (vnth 0 v) with
   | 0 => Connect a b
-  | 1 => if shape_is_control (vn (vnth 4 v)) then AuthOK a b c else AuthFail a b
+  | 1 | 9 => if shape_is_control (vn (vnth 4 v)) then AuthOK a b c else AuthFail a b
+  | 8 => AuthFail a 0
   | 2 => AuthFail a b
   | 3 => Kick a b c
   | 4 => Heartbeat a b
